@@ -17,6 +17,7 @@ SigOf(e) ==
   ELSE IF e.exc = "ValueError" /\ \E y \in subs : SigFloatGrid(y) /\ IsSome(y.min) /\ IsSome(y.max)
        THEN "gen.float.empty_precision_grid"
   ELSE IF e.exc = "IndexError" /\ \E y \in subs : SigEmptyAlphabet(y) THEN "gen.str.empty_alphabet"
+  ELSE IF e.exc = "IndexError" /\ \E y \in subs : SigEmptyNegClass(y) THEN "regex.negated_class_excludes_whole_alphabet"
   ELSE IF e.exc = "" /\ \E y \in subs : SigContradictoryStr(y) THEN "gen.str.contradictory_contains_inside_container"
   ELSE IF e.exc = "" /\ \E y \in subs : SigListEllLen(y) THEN "gen.list.ellipsis_len_ignored"
   ELSE IF e.exc = "" /\ \E y \in subs : SigFloatGrid(y) THEN "gen.float.precision_grid_truncates"
